@@ -168,6 +168,17 @@ var c15IgnoreVariants = []string{
 	".sourcegraph/ignore\nsub/\nout\nempty\n", // the ignore file itself; dir/ form; literal prefixes
 }
 
+// ignore variants >= c15IgnoreLinkBase: .sourcegraph/ignore is not a regular file but a symbolic
+// link (to a file of patterns outside the root / to nothing). Only a regular file is an ignore
+// file: no pattern applies, and the link is stored like every other link (content = its target).
+const c15IgnoreLinkBase = 100
+
+var c15IgnoreLinkTargets = []string{"@OUTSIDEIGN", "no-such-patterns-file"}
+
+const c15OutsideIgnore = "*.txt\nsub/\nempty\nlink\n"
+
+func c15OutsideIgnorePath(outside string) string { return outside + ".ignore-patterns" }
+
 const c15OutsideSecret = "OUTSIDESECRET content of a file outside the root\n"
 
 // c15RefIgnore implements the documented rules for exactly the generated pattern forms:
@@ -238,7 +249,9 @@ func (c c15DirCase) describe() string {
 		}
 	}
 	s := "entries=[" + strings.Join(ps, " ") + "]"
-	if c.ignore >= 0 {
+	if c.ignore >= c15IgnoreLinkBase {
+		s += fmt.Sprintf(" ignore=symlink->%s", c15IgnoreLinkTargets[c.ignore-c15IgnoreLinkBase])
+	} else if c.ignore >= 0 {
 		s += fmt.Sprintf(" ignore=%q", c15IgnoreVariants[c.ignore])
 	}
 	if c.mode != 0 {
@@ -250,6 +263,12 @@ func (c c15DirCase) describe() string {
 func (c c15DirCase) body(i int, outside string) string {
 	e := c15Elems[i]
 	if i == c15IgnoreBit {
+		if c.ignore >= c15IgnoreLinkBase {
+			if t := c15IgnoreLinkTargets[c.ignore-c15IgnoreLinkBase]; t != "@OUTSIDEIGN" {
+				return t
+			}
+			return c15OutsideIgnorePath(outside)
+		}
 		return c15IgnoreVariants[c.ignore]
 	}
 	if e.body == "@OUTSIDE" {
@@ -293,7 +312,7 @@ func c15Skipped(content string, sizeMax int) bool {
 
 func (c c15DirCase) expect(outside string) []c15Expect {
 	ignored := func(string) bool { return false }
-	if c.ignore >= 0 {
+	if c.ignore >= 0 && c.ignore < c15IgnoreLinkBase {
 		ignored = c15RefIgnore(c15IgnoreVariants[c.ignore])
 	}
 	vcs := map[string]bool{".git": true, ".hg": true, ".svn": true}
@@ -334,7 +353,12 @@ func (c c15DirCase) materialise(root, outside string) error {
 		if err := os.MkdirAll(filepath.Dir(p), 0o755); err != nil {
 			return err
 		}
-		if e.symlink {
+		if i == c15IgnoreBit && c.ignore >= c15IgnoreLinkBase {
+			if err := os.WriteFile(c15OutsideIgnorePath(outside), []byte(c15OutsideIgnore), 0o644); err != nil {
+				return err
+			}
+		}
+		if e.symlink || (i == c15IgnoreBit && c.ignore >= c15IgnoreLinkBase) {
 			if err := os.Symlink(c.body(i, outside), p); err != nil {
 				return err
 			}
@@ -669,6 +693,11 @@ func c15Cases(thorough bool) (all []c15Case, nDir, nArc, modes, maxLen int) {
 			}
 			for v := range c15IgnoreVariants {
 				dirCases = append(dirCases, c15DirCase{mask: mask, ignore: v, mode: mode})
+			}
+			if mode == 0 {
+				for v := range c15IgnoreLinkTargets {
+					dirCases = append(dirCases, c15DirCase{mask: mask, ignore: c15IgnoreLinkBase + v, mode: mode})
+				}
 			}
 		}
 	}
